@@ -260,11 +260,65 @@ def helpers_case(ctx: Ctx, stream: str, i: int) -> None:
     ctx.count('helpers')
 
 
+def dtype_case(ctx: Ctx, stream: str, i: int) -> None:
+    """Containers of every leaf dtype (integer and boolean ones included) against weakly and strongly typed scalars that
+    the leaf dtype cannot represent (fractional, complex): a Stokes container behaves as its components do, so value
+    AND dtype of every component are those of the same operation on the bare JAX array, forward and reflected."""
+    from furax.landscapes import StokesPyTree
+    rng = ctx.rng(stream, i)
+    kind = rng.choice(KINDS)
+    cls = StokesPyTree.class_for(kind)
+    shape = rng.choice([(), (2,), (3,)])
+    n = int(np.prod(shape))
+    dts = [jnp.int32, jnp.int32, jnp.float32, jnp.float16, jnp.bool_, jnp.int8]
+    if jax.config.jax_enable_x64:
+        dts += [jnp.int64, jnp.float64]
+    dt = rng.choice(dts)
+    leaves = [jnp.asarray(np.array([rng.choice([1, 2, 3, 5]) + c for _ in range(n)]).reshape(shape), dtype=dt)
+              for c in range(len(kind))]
+    a = cls(*leaves)
+    sname, scalar = rng.choice([('float-fractional', 2.5), ('float-negative', -1.5), ('int', 3), ('np.float32', np.float32(0.5)),
+                                ('complex', 1j), ('np.float16', np.float16(1.5)), ('bool', True), ('float-integral', 2.0)])
+    opname = rng.choice(['add', 'sub', 'mul', 'div'])
+    op = OPS[opname]
+    for reflected in (False, True):
+        if reflected and isinstance(scalar, np.generic):
+            # `numpy_scalar <op> container`: NumPy's own dispatch runs first and hands the container a converted Python
+            # number (the NumPy scalar's type is lost before furax sees it) — outside the claims, like NumPy-array operands
+            ctx.count('dtype:numpy-scalar-reflected-skipped')
+            continue
+        f = (lambda: op(scalar, a)) if reflected else (lambda: op(a, scalar))
+        st, res = safe(f)
+        cfg = {'kind': kind, 'leaf_dtype': str(np.dtype(dt)), 'scalar': sname, 'op': opname, 'reflected': reflected}
+        ref = [safe(lambda l=l: op(scalar, l) if reflected else op(l, scalar)) for l in leaves]
+        if any(r[0] != 'ok' for r in ref):
+            # the bare arrays refuse the operation too (e.g. boolean subtraction): nothing to compare
+            ctx.count('dtype:jax-refuses')
+            continue
+        if st != 'ok':
+            ctx.fail(stream, i, f'stokes-op-raises:{st}:{sname}:{"reflected" if reflected else "forward"}',
+                     f'{cfg}: raised {st} ({str(res)[:100]}) although every component array accepts the operation', cfg)
+            continue
+        for c, (_, want) in enumerate(ref):
+            got = getattr(res, kind[c].lower())
+            if got.dtype != want.dtype or got.shape != want.shape or \
+                    not np.allclose(np.asarray(got).astype(np.complex128), np.asarray(want).astype(np.complex128), rtol=1e-3):
+                ctx.fail(stream, i, f'stokes-op-not-componentwise:{opname}:{"reflected" if reflected else "forward"}',
+                         f'{cfg}: component {kind[c]} is {np.asarray(got).tolist()} ({got.dtype}), the same operation on '
+                         f'the component array gives {np.asarray(want).tolist()} ({want.dtype})', cfg)
+                break
+        ctx.count('dtype:' + str(np.dtype(dt)))
+        ctx.case(str(cfg), True, sample=cfg)
+
+
 def run(ctx: Ctx) -> None:
     q = ctx.tier == 'quick'
     for i in range(300 if q else 8000):
         if ctx.want('op', i):
             one_case(ctx, 'op', i)
+    for i in range(120 if q else 3000):
+        if ctx.want('dtype', i):
+            dtype_case(ctx, 'dtype', i)
     for i in range(24 if q else 400):
         if ctx.want('helpers', i):
             helpers_case(ctx, 'helpers', i)
